@@ -439,7 +439,7 @@ def _check(ctx):
               b"GET / HTTP/1.1\r\nHost: x\r\nContent-Length: 3\r\nTransfer-Encoding: chunked\r\n\r\n0\r\n\r\n",
               b"POST / HTTP/1.1\r\nHost: x\r\nContent-Length: +3\r\n\r\nabc", b"GET / HTTP/1.1\r\n\r\n",
               b"GET / HTTP/1.0\r\n\r\nGET /smuggled HTTP/1.1\r\nHost: x\r\n\r\n"]
-    corpus = corpus + [d for d, k, r in H.deterministic_mutants(10 if ctx.quick else 16) if not r]     # fixed stream: first on every seed
+    corpus = corpus + [d for d, k, r in H.deterministic_mutants(16) if not r]     # fixed stream: first on every seed
     for i in range(n + len(corpus)):
         if i < len(corpus):
             data, kind = corpus[i], "corpus"
@@ -465,7 +465,7 @@ def _check(ctx):
             lines.append(H.model_line(cfg, segs, False))
             pending.append(({"cfg": cfg.spec(), "stream": hx(data), "cuts": [len(s) for s in segs]}, canon))
             oracle_parser(ctx, cfg, data, segs, o, default_limits)
-            if len(segs) == 1 and default_limits and (i % (3 if ctx.quick else 2) == 0):
+            if len(segs) == 1 and default_limits and (i < len(corpus) or i % (3 if ctx.quick else 2) == 0):
                 server_cases.append((data, o))
         ctx.hit("kind:" + kind.split("+")[0])
         ctx.hit("verdict:" + (o["err"] or ("accepted" if H.accepted(o) else "incomplete")))
